@@ -36,8 +36,9 @@ class Case:
         self.stats[key] = self.stats.get(key, 0) + 1
 
     def emit(self, line):
-        self.lines.append(line)
-        self.count("op:" + line.split()[0])
+        for l in line.split("\n"):
+            self.lines.append(l)
+            self.count("op:" + l.split()[0])
 
     def fresh_deadline(self, lo, hi):
         """Deadlines are pairwise distinct within a case: the order in which a BinaryHeap pops equal
@@ -172,12 +173,16 @@ class Case:
         if x < 0.5:
             timers = [k for k in self.kept if self.kind[k] == "timer" and k != in_cb_of]
             if timers:
-                return "setdeadline %d %d" % (r.choice(timers), self.fresh_deadline(-1, 5))
+                k = r.choice(timers)
+                follow = " ; update %d" % k if in_cb_of is not None else "\nupdate %d" % k
+                return "setdeadline %d %d" % (k, self.fresh_deadline(-1, 5)) + (follow if r.random() < 0.9 else "")
         if x < 0.6:
             gens = [k for k in self.kept if self.kind[k] == "gen" and k != in_cb_of]
             if gens:
-                return "setinterest %d %s %s" % (r.choice(gens), r.choice(["r", "w", "rw", "-"]),
-                                                 r.choice(["level", "edge", "oneshot"]))
+                k = r.choice(gens)
+                follow = " ; update %d" % k if in_cb_of is not None else "\nupdate %d" % k
+                return "setinterest %d %s %s" % (k, r.choice(["r", "w", "rw", "-"]),
+                                                 r.choice(["level", "edge", "oneshot"])) + (follow if r.random() < 0.9 else "")
         if x < 0.68 and self.kept:
             k = r.choice(sorted(self.kept))
             return "dropdisp %d" % k
